@@ -12,6 +12,7 @@ import (
 	"fmt"
 	"runtime"
 	"sort"
+	"strings"
 	"sync"
 
 	specqbft "github.com/bloxapp/ssv-spec/qbft"
@@ -53,9 +54,10 @@ type product struct {
 }
 
 type world struct {
-	c    *qnet.Cfg
-	me   spectypes.OperatorID
-	pool *qnet.Pool
+	c         *qnet.Cfg
+	me        spectypes.OperatorID
+	pool      *qnet.Pool
+	deepPaths [][][]byte
 }
 
 func (w *world) newNode() (*instance.Instance, *capNet, *nodeTimer) {
@@ -222,9 +224,12 @@ type letter struct {
 	base bool                    // honest message of a real run (drives the exploration)
 }
 
+// deepPaths: for every execution of the same searches, what operator `me` itself processed, in
+// order (message bytes, or nil for a timeout) - realistic long histories for the product.
 func (w *world) honestPool(maxRound specqbft.Round, k int) []*specqbft.SignedMessage {
 	var out []*specqbft.SignedMessage
 	seen := map[string]bool{}
+	seenPath := map[string]bool{}
 	for _, st := range qnet.StartAssignments(w.c.Honest) {
 		c := *w.c
 		c.Start, c.MaxRound = st, maxRound
@@ -233,6 +238,33 @@ func (w *world) honestPool(maxRound specqbft.Round, k int) []*specqbft.SignedMes
 		s := &qnet.Search{K: k, AllowDeviation: func(_ *qnet.World, e qnet.Event, _ int) bool {
 			return e.Kind == qnet.Isolate || e.Kind == qnet.Timeout || e.Kind == qnet.Drop
 		}}
+		cc := c
+		s.OnEnd = func(end *qnet.World) {
+			// re-run the execution on a fresh world and note what operator me processed
+			p2 := qnet.NewPool()
+			w2, _ := qnet.NewWorld(&cc, p2)
+			var path [][]byte
+			key := ""
+			for _, e := range end.Trace {
+				for _, rep := range w2.Apply(e) {
+					if rep.Op != w.me {
+						continue
+					}
+					if rep.Event.Kind == qnet.Timeout || rep.Event.Kind == qnet.TimeoutAll {
+						path = append(path, nil)
+						key += "T|"
+					} else if rep.Event.Msg >= 0 {
+						b := []byte(p2.List[rep.Event.Msg].Key)
+						path = append(path, b)
+						key += p2.List[rep.Event.Msg].Key + "|"
+					}
+				}
+			}
+			if !seenPath[key] && string(cc.Start[w.me]) == "A" {
+				seenPath[key] = true
+				w.deepPaths = append(w.deepPaths, path)
+			}
+		}
 		s.Run(wd, init)
 		for _, m := range pool.List {
 			if !seen[m.Key] {
@@ -412,6 +444,8 @@ type result struct {
 	Alphabet, Base      int
 	HonestDepth         int
 	MutantStatesCovered int
+	DeepPaths           int
+	DeepStates          int
 }
 
 func explore(r *ev.Run, w *world, start []byte, alpha []letter, maxTransitions int, tag string) result {
@@ -462,7 +496,7 @@ func explore(r *ev.Run, w *world, start []byte, alpha []letter, maxTransitions i
 						res.Hist[cls]++
 						if diff != "" {
 							path := append(append([]string{}, n.path...), l.name)
-							r.Violate("differs-from-spec: "+short(diff), diff+" after "+l.name, "c06", map[string]interface{}{"config": tag, "path": path}, diff, "identical observable behaviour")
+							r.Violate("differs-from-spec: "+short(diff)+decidedTag(diff, n.p), diff+" after "+l.name, "c06", map[string]interface{}{"config": tag, "path": path}, diff, "identical observable behaviour")
 						} else if changed && collect && !seen[k2] {
 							seen[k2] = true
 							nm := n.mutants
@@ -529,8 +563,70 @@ func explore(r *ev.Run, w *world, start []byte, alpha []letter, maxTransitions i
 			res.Complete = false
 		}
 	}
+	// phase C: realistic deep histories - what this operator processed in every execution of the
+	// multi-operator runs; the product is compared along each of them and every mutated letter is
+	// applied in every new state on the way
+	// pass 1: every deep path, step comparison only; pass 2: all mutants in every new state on the
+	// way, as far as the budget goes
+	for pass := 1; pass <= 2; pass++ {
+		for _, path := range w.deepPaths {
+			if pass == 2 && (res.Transitions >= maxTransitions+maxTransitions/2 || r.Expired()) {
+				res.Complete = false
+				break
+			}
+			cur, _ := w.initial(start)
+			var names []string
+			for _, b := range path {
+				var m *specqbft.SignedMessage
+				name := "timeout"
+				if b != nil {
+					m = w.pool.InternBytes(b, 0).Signed
+					name = classOf(m)
+				}
+				names = append(names, name)
+				wasDecided := cur.node.State.Decided
+				diff := w.step(cur, m)
+				if pass == 1 {
+					res.Transitions++
+					res.Hist["deep-path step"]++
+					if diff != "" {
+						tagD := ""
+						if wasDecided && strings.HasPrefix(diff, "compaction changed") {
+							tagD = " (instance already decided)"
+						}
+						r.Violate("differs-from-spec: "+short(diff)+tagD, diff+" after "+name+" (deep path)", "c06", map[string]interface{}{"config": tag, "path": append([]string{}, names...)}, diff, "identical observable behaviour")
+						break
+					}
+					continue
+				}
+				if diff != "" {
+					break
+				}
+				k := w.key(cur)
+				if seen[k] {
+					continue
+				}
+				seen[k] = true
+				res.DeepStates++
+				_, used, _ := expand([]node{{p: cur, key: k, path: append([]string{}, names...)}}, mut, 1<<30, false)
+				res.Transitions += used
+			}
+			if pass == 1 {
+				res.DeepPaths++
+			}
+		}
+	}
 	res.States = len(seen)
 	return res
+}
+
+// decidedTag qualifies compaction differences of an instance that was already decided before the
+// step: Compact deliberately discards every non-commit message of a decided instance.
+func decidedTag(diff string, pre *product) string {
+	if pre.node.State.Decided && strings.HasPrefix(diff, "compaction changed") {
+		return " (instance already decided)"
+	}
+	return ""
 }
 
 func short(d string) string {
@@ -552,7 +648,7 @@ func main() {
 		k        int
 		cap      int
 	}
-	jobs := []job{{4, 1, 2, 1, 600000}, {4, 2, 2, 1, 600000}}
+	jobs := []job{{4, 1, 3, 1, 300000}, {4, 2, 3, 1, 300000}}
 	if r.Thorough() {
 		jobs = []job{{4, 1, 3, 1, 6000000}, {4, 2, 3, 1, 6000000}, {4, 3, 3, 1, 3000000}, {7, 1, 2, 0, 2000000}, {7, 2, 2, 0, 2000000}}
 	}
@@ -578,7 +674,7 @@ func main() {
 			exhaustive = false
 			r.CapHit(fmt.Sprintf("%s: transition cap %d / deadline", tag, j.cap))
 		}
-		bounds = append(bounds, fmt.Sprintf("%s: alphabet=%d (honest %d) states=%d transitions=%d honest-BFS-depth-completed=%d states-with-all-mutants-applied=%d complete=%v", tag, res.Alphabet, res.Base, res.States, res.Transitions, res.HonestDepth, res.MutantStatesCovered, res.Complete))
+		bounds = append(bounds, fmt.Sprintf("%s: alphabet=%d (honest %d) states=%d transitions=%d honest-BFS-depth-completed=%d states-with-all-mutants-applied=%d deep-paths=%d/%d new-states-on-deep-paths(all mutants applied)=%d complete=%v", tag, res.Alphabet, res.Base, res.States, res.Transitions, res.HonestDepth, res.MutantStatesCovered, res.DeepPaths, len(w.deepPaths), res.DeepStates, res.Complete))
 	}
 	r.Set("traces_validated_against_impl", r.Get("transitions"))
 	r.Set("bounds", bounds)
